@@ -289,3 +289,281 @@ Proof.
   pose proof (piece_keys b _ _ Hwf Eb) as HK. rewrite Forall_forall in HK. symmetry.
   apply (piece_rename_dget cm pc (channels b) c c' (HK pc Hpc) Hin Ht Hu).
 Qed.
+
+(* ---- one piece: int_ok of a child as a statement about its single piece ---- *)
+Lemma int_ok_single s rho pc c e f : int_ok s -> wf s = true -> denote s rho = Some [pc] ->
+  dget c (quant QIntegral s) = Some e -> dget c (snd pc) = Some f -> okL L_int rho e (fst pc) f.
+Proof.
+  intros HI Hw Hd He Hf v Hv. destruct (HI rho [pc] c e v Hw Hd He Hv) as (x & Ex & Hx).
+  cbn [p_int] in Ex. rewrite Hf in Ex. inversion Ex; subst x. rewrite Hx. cbn [L L_int]. ring.
+Qed.
+
+(* ---- AtomicMultiChannelPT ---- *)
+Lemma int_Multi ps : Forall int_ok ps -> int_ok (Multi ps).
+Proof.
+  intros HI rho pcs c e v Hwf Hd Hc Hv. rewrite wf_Multi in Hwf. apply andb_prop in Hwf as (Hnd & Hwf).
+  pose proof (wf_multi_Forall _ Hwf) as HW. rewrite denote_Multi in Hd. rewrite quant_Multi in Hc.
+  destruct ps as [|q r]; [discriminate|]. destruct (den_multi_first _ _ _ _ Hd) as (pc0 & d0 & _ & ->).
+  assert (HR : Forall (fun s => forall pc c e f, denote s rho = Some [pc] -> dget c (quant QIntegral s) = Some e ->
+                                 dget c (snd pc) = Some f -> okL L_int rho e (fst pc) f) (q :: r)).
+  { rewrite Forall_forall in *. intros s Hs pc c1 e1 f1 H1 H2 H3. eapply int_ok_single; eauto. }
+  pose proof (multi_rule L_int rho QIntegral (q :: r) [] _ c e Hd HW Hnd HR Hc) as HM. cbn [fst snd] in HM.
+  destruct (dget c d0) as [f|] eqn:Ef; [|discriminate].
+  cbn [p_int fst snd]. rewrite Ef. eexists; split; [reflexivity|]. rewrite (HM v Hv). cbn [L L_int]. ring.
+Qed.
+
+(* ---- ArithmeticAtomicPT ---- *)
+Lemma int_AAtom l op r : int_ok l -> int_ok r -> int_ok (AAtom l op r).
+Proof.
+  intros HIl HIr rho pcs c e v Hwf Hd Hc Hv. cbn [wf] in Hwf. apply andb_prop in Hwf as (_ & Hwf). apply andb_prop in Hwf as (Hw1 & Hw2).
+  cbn [denote] in Hd. destruct (denote l rho) as [[|pl [|? ?]]|] eqn:E1; try discriminate.
+  destruct (denote r rho) as [[|pr [|? ?]]|] eqn:E2; try discriminate.
+  destruct (merge_atomic op pl pr) as [pc|] eqn:Em; [|discriminate]. inversion Hd; subst pcs. cbn [quant] in Hc.
+  destruct (quant_keys l QIntegral Hw1) as (Ql1 & Ql2). destruct (quant_keys r QIntegral Hw2) as (Qr1 & Qr2).
+  pose proof (piece_keys l rho _ Hw1 E1) as HKl. inversion HKl as [|? ? (Pl1 & Pl2) _]; subst.
+  pose proof (piece_keys r rho _ Hw2 E2) as HKr. inversion HKr as [|? ? (Pr1 & Pr2) _]; subst.
+  destruct (aatom_rule L_int rho op (quant QIntegral l) (quant QIntegral r) pl pr pc c e Em Qr1 Pr1) as (f & Ef & Hok).
+  - intros c1. rewrite Ql2, Pl2. reflexivity.
+  - intros c1. rewrite Qr2, Pr2. reflexivity.
+  - intros c1 e1 f1 H1 H2. exact (int_ok_single l rho pl c1 e1 f1 HIl Hw1 E1 H1 H2).
+  - intros c1 e1 f1 H1 H2. exact (int_ok_single r rho pr c1 e1 f1 HIr Hw2 E2 H1 H2).
+  - exact Hc.
+  - cbn [p_int]. rewrite Ef. eexists; split; [reflexivity|]. rewrite (Hok v Hv). cbn [L L_int]. ring.
+Qed.
+
+(* ---- ParallelChannelPT ---- *)
+Definition sum_pint (cf : list Q) (pb : pulse) : Q := fold_right (fun pc acc => pint cf (fst pc) + acc) 0 pb.
+
+Lemma p_int_over (D : piece -> list (chan * chfun)) (E : piece -> Q) c cf pb :
+  (forall pc, In pc pb -> dget c (D pc) = Some (FSegs [(fst pc, cf)] (E pc))) ->
+  exists z, p_int (map (fun pc => (fst pc, D pc)) pb) c = Some z /\ z == sum_pint cf pb.
+Proof.
+  induction pb as [|pc pb IH]; intros H.
+  - exists 0. split; reflexivity.
+  - destruct IH as (z & Ez & Hz); [intros pc' Hpc'; apply H; right; exact Hpc'|].
+    cbn [map p_int fst snd]. rewrite (H pc (or_introl eq_refl)), Ez. eexists; split; [reflexivity|].
+    cbn [f_int fold_right fst snd sum_pint]. fold (sum_pint cf pb). rewrite Hz. ring.
+Qed.
+
+Lemma pint_comp cf d d' : d == d' -> pint cf d == pint cf d'.
+Proof. intros H. unfold pint. apply peval_comp. exact H. Qed.
+
+Lemma pint_short cf d : (length cf <= 1)%nat -> pint cf d == peval cf 0 * d.
+Proof.
+  destruct cf as [|q [|q2 cf]]; cbn [length]; intros H; [| |lia].
+  - unfold pint, panti. simpl. ring.
+  - rewrite pint_const. simpl. ring.
+Qed.
+
+Lemma sum_pint_short cf pb : (length cf <= 1)%nat -> sum_pint cf pb == peval cf 0 * total pb.
+Proof.
+  intros H. induction pb as [|pc pb IH]; [cbn; ring|]. cbn [sum_pint fold_right]. fold (sum_pint cf pb).
+  rewrite IH, (pint_short cf (fst pc) H), total_cons. ring.
+Qed.
+
+Lemma poly_int_eval_d rho d : forall cfe k v, cfe <> [] -> eval rho (poly_int_from k d cfe) = Some v -> exists dd, eval rho d = Some dd.
+Proof.
+  intros cfe k v Hne Hv. destruct cfe as [|c r]; [congruence|]. cbn [poly_int_from] in Hv.
+  apply eval_EAdd in Hv as (x & y & Ex & _ & _). destruct (eval rho d) as [dd|] eqn:Ed; [eauto|]. exfalso.
+  cbn [epow eval] in Ex. rewrite Ed in Ex. revert Ex. destruct (eval rho c); cbn [omap2]; discriminate.
+Qed.
+
+Lemma Forall2_len2 {A B} (R : A -> B -> Prop) a b : Forall2 R a b -> length a = length b.
+Proof. induction 1; cbn; congruence. Qed.
+
+Lemma int_Par b ov : int_ok b -> int_ok (Par b ov).
+Proof.
+  intros HI rho pcs c e v Hwf Hd Hc Hv. cbn [wf] in Hwf. apply andb_prop in Hwf as (_ & Hwf). apply andb_prop in Hwf as (Hwf & Hat).
+  apply andb_prop in Hwf as (Hwf & Hnt). apply andb_prop in Hwf as (Hwf & Hno).
+  cbn [denote] in Hd. destruct (denote b rho) as [pb|] eqn:Eb; [|discriminate].
+  destruct (opt_all (map (fun kv => option_map (fun cf => (fst kv, cf)) (opt_all (map (eval rho) (snd kv)))) ov)) as [ovs|] eqn:Eo; [|discriminate].
+  inversion Hd; subst pcs. clear Hd.
+  pose proof (opt_all_dget (fun x => opt_all (map (eval rho) (snd x))) (fun _ cf => cf) c ov ovs Eo) as G.
+  pose proof (opt_all_keys _ _ _ _ _ Eo) as Hk.
+  assert (Hnos : nodupb (dkeys ovs) = true) by (unfold dkeys; rewrite Hk; exact Hno).
+  cbn [quant] in Hc. rewrite dget_dupdate in Hc by (rewrite dkeys_map_fst; exact Hno).
+  rewrite (dget_map_val (fun _ cf => if timedep cf then poly_int_from 0 (duration_expr b) cf else EMul (poly_expr cf) (duration_expr b))) in Hc.
+  assert (Hpiece : forall pc, dget c (dupdate (snd pc) (map (fun kv : chan * list Q => (fst kv, FSegs [(fst pc, snd kv)] (peval (snd kv) (fst pc)))) ovs))
+                              = match dget c ovs with Some cf => Some (FSegs [(fst pc, cf)] (peval cf (fst pc))) | None => dget c (snd pc) end).
+  { intros pc. rewrite dget_dupdate by (rewrite dkeys_map_fst; exact Hnos).
+    rewrite (dget_map_val (fun _ cf => FSegs [(fst pc, cf)] (peval cf (fst pc)))). destruct (dget c ovs); reflexivity. }
+  destruct (dget c ov) as [cfe|] eqn:Eov.
+  - (* overwritten channel *)
+    destruct G as (cf & Ecf & Gcf). cbn [snd] in Ecf. cbn [option_map] in Hc. inversion Hc; subst e. clear Hc.
+    pose proof (opt_all_Forall2 _ _ _ Ecf) as HF.
+    destruct (p_int_over (fun pc => dupdate (snd pc) (map (fun kv : chan * list Q => (fst kv, FSegs [(fst pc, snd kv)] (peval (snd kv) (fst pc)))) ovs))
+                (fun pc => peval cf (fst pc)) c cf pb) as (z & Ez & Hz).
+    { intros pc _. rewrite Hpiece, Gcf. reflexivity. }
+    exists z. split; [exact Ez|]. rewrite Hz.
+    assert (Hntc : no_t cfe = true).
+    { rewrite forallb_forall in Hnt. apply (Hnt (c, cfe)). apply dget_In. exact Eov. }
+    destruct (timedep cfe) eqn:Etd.
+    + (* time dependent: atomic body, at most one piece *)
+      assert (Hatom : atomic b = true).
+      { apply orb_prop in Hat as [Hat|Hat]; [|exact Hat]. apply negb_true_iff in Hat. exfalso.
+        assert (existsb (fun kv : chan * list expr => timedep (snd kv)) ov = true); [|congruence].
+        apply existsb_exists. exists (c, cfe). split; [apply dget_In; exact Eov|exact Etd]. }
+      destruct (poly_int_eval_d rho (duration_expr b) cfe 0 v ltac:(destruct cfe; discriminate) Hv) as (dd & Edd).
+      pose proof (duration_correct b rho pb dd Hwf Eb Edd) as Hdd.
+      destruct (func_integral rho (duration_expr b) dd cfe cf Edd HF) as (w & Ew & Hw). rewrite Ew in Hv. inversion Hv; subst w.
+      rewrite Hw. cbn [f_int fold_right fst snd]. pose proof (atomic_pieces b rho pb Hatom Eb) as Hlen.
+      destruct pb as [|pc [|pc2 pb]]; cbn [length] in Hlen; [| |lia].
+      * change (total []) with 0 in Hdd. rewrite (pint_comp cf dd 0 Hdd), pint_0. cbn. ring.
+      * rewrite total_cons in Hdd. change (total []) with 0 in Hdd. cbn [sum_pint fold_right].
+        rewrite (pint_comp cf dd (fst pc)) by (rewrite Hdd; ring). ring.
+    + apply eval_EMul in Hv as (vq & dv & Evq & Edv & ->).
+      pose proof (duration_correct b rho pb dv Hwf Eb Edv) as Hdv.
+      destruct (eval_poly_expr_const rho cfe cf HF Etd 0) as (vq' & Evq' & Hvq). rewrite Evq in Evq'. inversion Evq'; subst vq'.
+      rewrite sum_pint_short, Hvq, Hdv; [reflexivity|]. rewrite <- (Forall2_len2 _ _ _ HF). destruct cfe as [|? [|? ?]]; cbn; try lia; discriminate.
+  - (* channel of the inner template *)
+    rewrite G in Hpiece. cbn [option_map] in Hc.
+    destruct (HI rho pb c e v Hwf Eb Hc Hv) as (x & Ex & Hx). exists x. split; [|exact Hx]. rewrite <- Ex.
+    symmetry. apply p_int_congr. apply Forall2_map_r. intros pc _. cbn [fst snd]. split; [reflexivity|]. symmetry. apply Hpiece.
+Qed.
+
+(* ---- ArithmeticPT with a scalar operand ---- *)
+Lemma scalar_eval_dget rho s cs sv c : scalar_eval rho s cs = Some sv ->
+  match dget c (scalar_as_dict s cs) with
+  | Some se => exists q, eval rho se = Some q /\ dget c sv = Some q
+  | None => dget c sv = None
+  end.
+Proof.
+  unfold scalar_eval. intros H.
+  pose proof (opt_all_dget (fun x => eval rho (snd x)) (fun _ q => q) c (scalar_as_dict s cs) sv H) as G.
+  destruct (dget c (scalar_as_dict s cs)); exact G.
+Qed.
+
+Lemma piece_aff_dget left op sv pc pc' c : piece_aff left op sv pc = Some pc' ->
+  fst pc' = fst pc /\
+  match dget c (snd pc) with
+  | Some f => exists ab, aff_of left op (dget c sv) = Some ab /\ dget c (snd pc') = Some (FAff (fst ab) (snd ab) f)
+  | None => dget c (snd pc') = None
+  end.
+Proof.
+  unfold piece_aff. intros H.
+  destruct (opt_all (map (fun cf => option_map (fun ab => (fst cf, FAff (fst ab) (snd ab) (snd cf))) (aff_of left op (dget (fst cf) sv))) (snd pc))) as [chs|] eqn:E; [|discriminate].
+  inversion H; subst pc'. split; [reflexivity|]. cbn [snd].
+  pose proof (opt_all_dget (fun x => aff_of left op (dget (fst x) sv)) (fun x ab => FAff (fst ab) (snd ab) (snd x)) c (snd pc) chs E) as G.
+  destruct (dget c (snd pc)); exact G.
+Qed.
+
+Lemma aff_pieces left op sv c a b pb pcs :
+  Forall2 (fun pc pc' => piece_aff left op sv pc = Some pc') pb pcs ->
+  aff_of left op (dget c sv) = Some (a, b) ->
+  Forall2 (fun pc pc' => fst pc' = fst pc /\ dget c (snd pc') = option_map (FAff a b) (dget c (snd pc))) pb pcs.
+Proof.
+  intros H Ha. induction H as [|pc pc' pb pcs Hp H IH]; constructor; [|exact IH].
+  destruct (piece_aff_dget left op sv pc pc' c Hp) as (H1 & H2). split; [exact H1|].
+  destruct (dget c (snd pc)) as [f|]; [|exact H2]. destruct H2 as (ab & Hab & Hd). rewrite Ha in Hab. inversion Hab; subst ab. exact Hd.
+Qed.
+
+Lemma eval_EDiv rho a b v : eval rho (EDiv a b) = Some v ->
+  exists x y, eval rho a = Some x /\ eval rho b = Some y /\ Qeq_bool y 0 = false /\ v = x / y.
+Proof.
+  cbn [eval]. destruct (eval rho a) as [x|], (eval rho b) as [y|]; try discriminate.
+  destruct (Qeq_bool y 0) eqn:E; [discriminate|]. intros H; inversion H. eauto 6.
+Qed.
+
+Lemma Qeq_bool_false_neq y : Qeq_bool y 0 = false -> ~ y == 0.
+Proof. intros H Hy. apply Qeq_bool_iff in Hy. congruence. Qed.
+
+Lemma int_ArithL b op s : int_ok b -> int_ok (ArithL b op s).
+Proof.
+  intros HI rho pcs c e v Hwf Hd Hc Hv. cbn [wf] in Hwf. apply andb_prop in Hwf as (_ & Hwf). apply andb_prop in Hwf as (Hwf & Hs).
+  cbn [denote] in Hd. destruct (denote b rho) as [pb|] eqn:Eb; [|discriminate].
+  destruct (scalar_eval rho s (channels b)) as [sv|] eqn:Esv; [|discriminate]. apply opt_all_map_Forall2 in Hd.
+  destruct (scalar_dict_keys s (channels b) (wf_nodup _ Hwf) Hs) as (S1 & S2).
+  destruct (quant_keys b QIntegral Hwf) as (K1 & K2).
+  pose proof (scalar_eval_dget rho s (channels b) sv c Esv) as Gs.
+  set (sd := scalar_as_dict s (channels b)) in *.
+  set (sd' := match op with OAdd | OSub => dmap (fun v0 => EMul v0 (duration_expr b)) sd | _ => sd end).
+  assert (Hq : quant QIntegral (ArithL b op s) = apply_op_dict op (quant QIntegral b) sd') by reflexivity.
+  rewrite Hq in Hc. clear Hq.
+  assert (Hn' : nodupb (dkeys sd') = true) by (unfold sd'; destruct op; rewrite ?dkeys_dmap; exact S1).
+  rewrite dget_apply_op_dict in Hc by exact Hn'.
+  assert (Hsd' : dget c sd' = match op with OAdd | OSub => option_map (fun v0 => EMul v0 (duration_expr b)) (dget c sd) | _ => dget c sd end).
+  { unfold sd'. destruct op; rewrite ?dget_dmap; reflexivity. }
+  destruct (dget c (quant QIntegral b)) as [ea|] eqn:Eea.
+  - (* find the affine map of this channel and the value of the body's integral *)
+    assert (Hmain : exists va a' b', eval rho ea = Some va /\ aff_of true op (dget c sv) = Some (a', b') /\ v == a' * va + b' * total pb).
+    { destruct (dget c sd) as [se|] eqn:Ese.
+      - destruct Gs as (sq & Esq & Gsq). rewrite Gsq. rewrite Hsd' in Hc.
+        destruct op; cbn [option_map] in Hc; inversion Hc; subst e; cbn [apply_both] in Hv.
+        + apply eval_EAdd in Hv as (va & y & Eva & Ey & ->). apply eval_EMul in Ey as (sq' & dv & Esq' & Edv & ->).
+          rewrite Esq in Esq'. inversion Esq'; subst sq'. pose proof (duration_correct b rho pb dv Hwf Eb Edv) as Hdv.
+          exists va, 1, sq. repeat split; [exact Eva|rewrite Hdv; ring].
+        + apply eval_ESub in Hv as (va & y & Eva & Ey & ->). apply eval_EMul in Ey as (sq' & dv & Esq' & Edv & ->).
+          rewrite Esq in Esq'. inversion Esq'; subst sq'. pose proof (duration_correct b rho pb dv Hwf Eb Edv) as Hdv.
+          exists va, 1, (- sq). repeat split; [exact Eva|rewrite Hdv; ring].
+        + apply eval_EMul in Hv as (va & sq' & Eva & Esq' & ->). rewrite Esq in Esq'. inversion Esq'; subst sq'.
+          exists va, sq, 0. repeat split; [exact Eva|ring].
+        + apply eval_EDiv in Hv as (va & sq' & Eva & Esq' & Hnz & ->). rewrite Esq in Esq'. inversion Esq'; subst sq'.
+          exists va, (1 / sq), 0. cbn [aff_of]. rewrite Hnz. repeat split; [exact Eva|]. field. apply Qeq_bool_false_neq. exact Hnz.
+      - rewrite Gs. assert (Hn : dget c sd' = None) by (rewrite Hsd'; destruct op; reflexivity). rewrite Hn in Hc. inversion Hc; subst e.
+        exists v, 1, 0. repeat split; [exact Hv|ring]. }
+    destruct Hmain as (va & a' & b' & Eva & Haff & Hvv).
+    destruct (HI rho pb c ea va Hwf Eb Eea Eva) as (X & EX & HX).
+    destruct (p_int_aff pb pcs c a' b' X (aff_pieces true op sv c a' b' pb pcs Hd Haff) EX) as (z & Ez & Hz).
+    exists z. split; [exact Ez|]. rewrite Hz, Hvv, HX. reflexivity.
+  - exfalso. destruct (dget c sd') as [es'|] eqn:Es'; [|discriminate].
+    assert (Hm : dmem c sd = true).
+    { rewrite Hsd' in Es'. unfold dmem. destruct (dget c sd); [reflexivity|]. destruct op; discriminate. }
+    pose proof (S2 c Hm) as Hmc. rewrite <- K2 in Hmc. unfold dmem in Hmc. rewrite Eea in Hmc. discriminate.
+Qed.
+
+Lemma int_ArithR s op b : int_ok b -> int_ok (ArithR s op b).
+Proof.
+  intros HI rho pcs c e v Hwf Hd Hc Hv. cbn [wf] in Hwf. apply andb_prop in Hwf as (_ & Hwf). apply andb_prop in Hwf as (Hwf & Hnd).
+  apply andb_prop in Hwf as (Hwf & Hs).
+  cbn [denote] in Hd. destruct (denote b rho) as [pb|] eqn:Eb; [|discriminate].
+  destruct (scalar_eval rho s (channels b)) as [sv|] eqn:Esv; [|discriminate]. apply opt_all_map_Forall2 in Hd.
+  destruct (scalar_dict_keys s (channels b) (wf_nodup _ Hwf) Hs) as (S1 & S2).
+  destruct (quant_keys b QIntegral Hwf) as (K1 & K2).
+  pose proof (scalar_eval_dget rho s (channels b) sv c Esv) as Gs.
+  set (sd := scalar_as_dict s (channels b)) in *.
+  set (sd' := match op with OAdd | OSub => dmap (fun v0 => EMul v0 (duration_expr b)) sd | _ => sd end).
+  assert (Hq : quant QIntegral (ArithR s op b) = apply_op_dict op sd' (quant QIntegral b)) by reflexivity.
+  rewrite Hq in Hc. clear Hq.
+  rewrite dget_apply_op_dict in Hc by exact K1.
+  assert (Hsd' : dget c sd' = match op with OAdd | OSub => option_map (fun v0 => EMul v0 (duration_expr b)) (dget c sd) | _ => dget c sd end).
+  { unfold sd'. destruct op; rewrite ?dget_dmap; reflexivity. }
+  destruct (dget c (quant QIntegral b)) as [ea|] eqn:Eea.
+  - assert (Hmain : exists va a' b', eval rho ea = Some va /\ aff_of false op (dget c sv) = Some (a', b') /\ v == a' * va + b' * total pb).
+    { destruct (dget c sd) as [se|] eqn:Ese.
+      - destruct Gs as (sq & Esq & Gsq). rewrite Gsq. rewrite Hsd' in Hc.
+        destruct op; try discriminate; cbn [option_map] in Hc; inversion Hc; subst e; cbn [apply_both] in Hv.
+        + apply eval_EAdd in Hv as (y & va & Ey & Eva & ->). apply eval_EMul in Ey as (sq' & dv & Esq' & Edv & ->).
+          rewrite Esq in Esq'. inversion Esq'; subst sq'. pose proof (duration_correct b rho pb dv Hwf Eb Edv) as Hdv.
+          exists va, 1, sq. repeat split; [exact Eva|rewrite Hdv; ring].
+        + apply eval_ESub in Hv as (y & va & Ey & Eva & ->). apply eval_EMul in Ey as (sq' & dv & Esq' & Edv & ->).
+          rewrite Esq in Esq'. inversion Esq'; subst sq'. pose proof (duration_correct b rho pb dv Hwf Eb Edv) as Hdv.
+          exists va, (-(1)), sq. repeat split; [exact Eva|rewrite Hdv; ring].
+        + apply eval_EMul in Hv as (sq' & va & Esq' & Eva & ->). rewrite Esq in Esq'. inversion Esq'; subst sq'.
+          exists va, sq, 0. repeat split; [exact Eva|ring].
+      - rewrite Gs. assert (Hn : dget c sd' = None) by (rewrite Hsd'; destruct op; reflexivity). rewrite Hn in Hc. inversion Hc; subst e.
+        destruct op; try discriminate; cbn [apply_rhs_only] in Hv.
+        + exists v, 1, 0. repeat split; [exact Hv|ring].
+        + apply eval_ENeg in Hv as (va & Eva & ->). exists va, (-(1)), 0. repeat split; [exact Eva|ring].
+        + exists v, 1, 0. repeat split; [exact Hv|ring]. }
+    destruct Hmain as (va & a' & b' & Eva & Haff & Hvv).
+    destruct (HI rho pb c ea va Hwf Eb Eea Eva) as (X & EX & HX).
+    destruct (p_int_aff pb pcs c a' b' X (aff_pieces false op sv c a' b' pb pcs Hd Haff) EX) as (z & Ez & Hz).
+    exists z. split; [exact Ez|]. rewrite Hz, Hvv, HX. reflexivity.
+  - exfalso. destruct (dget c sd') as [es'|] eqn:Es'; [|discriminate].
+    assert (Hm : dmem c sd = true).
+    { rewrite Hsd' in Es'. unfold dmem. destruct (dget c sd); [reflexivity|]. destruct op; discriminate. }
+    pose proof (S2 c Hm) as Hmc. rewrite <- K2 in Hmc. unfold dmem in Hmc. rewrite Eea in Hmc. discriminate.
+Qed.
+
+(* ---- the induction ---- *)
+Theorem integral_correct : forall p rho pcs c e v,
+  wf p = true -> denote p rho = Some pcs -> dget c (quant QIntegral p) = Some e -> eval rho e = Some v ->
+  exists x, p_int pcs c = Some x /\ v == x.
+Proof.
+  intros p. change (int_ok p). induction p using pt_ind'.
+  - apply int_Table. - apply int_Point. - apply int_Const. - apply int_Func.
+  - apply int_Seq; assumption. - apply int_Rep; assumption. - apply int_For; assumption. - apply int_Map; assumption.
+  - apply int_Multi; assumption. - apply int_Par; assumption. - apply int_ArithL; assumption.
+  - apply int_ArithR; assumption. - apply int_AAtom; assumption.
+Qed.
+Print Assumptions integral_correct.
